@@ -180,6 +180,29 @@ _CUR_INTERP = [None]               # the interpretation in progress (one at a ti
 _VALUE_EQ_PREFIX = "pysmt.typing."   # classes whose instances are compared / hashed through their own __eq__ / __hash__
 
 
+_VALUE_EQ_CACHE = {}
+
+
+def _value_eq_class(cls, dunder):
+    """Does the repository class define its own __eq__ / __hash__ (then instances are compared / hashed through it, as
+    Python does)?  Formula nodes, the pure value classes with their own fast path, exceptions and tuples are excluded."""
+    it = _CUR_INTERP[0]
+    if it is None:
+        return False
+    key = (id(it.repo), cls, dunder)
+    r = _VALUE_EQ_CACHE.get(key)
+    if r is None:
+        r = False
+        if cls in it.repo.classes and cls != "pysmt.fnode.FNode" and cls not in PURE_VALUE_CLASSES:
+            try:
+                q, f = it.repo.find_method(cls, dunder)
+                r = f is not None and not it._is_exception_class(cls) and it._namedtuple_fields(cls) is None
+            except Exception:
+                r = False
+        _VALUE_EQ_CACHE[key] = r
+    return r
+
+
 class AObj(Abs):
     """Instance of a repository class (or of a modelled class)."""
 
@@ -200,7 +223,7 @@ class AObj(Abs):
             nid = self.attrs.get("_node_id")
             if isinstance(nid, int) and not isinstance(nid, bool):
                 return nid
-        elif self.cls.startswith(_VALUE_EQ_PREFIX):
+        elif _value_eq_class(self.cls, "__hash__"):
             it = _CUR_INTERP[0]
             if it is not None and not it._in_value_eq and "_sa_hash" not in self.attrs:
                 it._in_value_eq += 1
@@ -217,7 +240,7 @@ class AObj(Abs):
     def __eq__(self, other):
         if self is other:
             return True
-        if isinstance(other, AObj) and self.cls.startswith(_VALUE_EQ_PREFIX) and other.cls.startswith(_VALUE_EQ_PREFIX):
+        if isinstance(other, AObj) and _value_eq_class(self.cls, "__eq__"):
             it = _CUR_INTERP[0]
             if it is not None and it._in_value_eq < 8:
                 it._in_value_eq += 1
@@ -1305,6 +1328,10 @@ class Interp(object):
                 return ClassRef(obj.cls)
             return self.class_attr(obj.cls, name, obj, node)
         if isinstance(obj, ClassRef):
+            if name in ("__name__", "__qualname__"):
+                return obj.qual.split(".")[-1]
+            if name == "__module__":
+                return obj.qual.rsplit(".", 1)[0]
             return self.class_attr(obj.qual, name, None, node)
         if isinstance(obj, ModRef):
             m = self.repo.modules[obj.name]
